@@ -63,11 +63,14 @@ def exempt : List String := ["SetDelCallBackFn"]
 
 /-- every exported method that writes holds the exclusive lock for its whole body; every one that
 only reads holds at least the shared lock; an unexported helper without a lock is only called from
-methods that hold the exclusive lock -/
+methods that hold the exclusive lock; no method takes the lock twice (directly or through a callee:
+`sync.RWMutex` is not re-entrant, a recursive read lock deadlocks as soon as a writer queues) -/
 def lockOK (facts : List LockFact) : Bool :=
   facts.all fun f =>
     let name := f.1
     let lock := f.2.1
+    -- sync.RWMutex is not re-entrant: a method that holds the lock calls no method that takes it
+    (lock == "none" || f.2.2.2.2.all fun c => match factOf facts c with | some g => g.2.1 == "none" | none => true) &&
     let exported := match name.toList.head? with | some c => c.isUpper | none => false
     if exempt.contains name then true
     else if exported then
